@@ -33,7 +33,7 @@ func init() {
 			if tier == "thorough" {
 				return fw.Plan{Shards: 16, CasesPerShard: 1300, TimeoutSec: 3000}
 			}
-			return fw.Plan{Shards: 8, CasesPerShard: 50, TimeoutSec: 900}
+			return fw.Plan{Shards: 8, CasesPerShard: 250, TimeoutSec: 900}
 		},
 		Run: runC07,
 	})
